@@ -22,7 +22,7 @@ PROP = "C09"
 LEVEL = "exploration"
 RUNS = {"quick": 160, "thorough": 8000}
 TIME_CAP = {"quick": 400, "thorough": 1500}
-ARMS = ["raw", "s2352", "mdx", "cue_raw", "cue_2352"]
+ARMS = ["raw", "raw_path", "s2352", "mdx", "cue_raw", "cue_2352"]
 SELFCHECK_N = 4
 CHUNK = 1          # runs per worker task (cost-aware: keeps the time cap responsive)
 RULE = ("every seeded AKAI / Roland image (as in C01/C02, smaller) x {raw, 2352-byte raw sectors, MDX wrapper, cue->raw, cue->2352}; "
@@ -34,13 +34,19 @@ COMPONENTS = {"real": ["smpl_extract.actions.determine_image_type, alcohol/mdf, 
               "stub": ["SimFile for raw/2352/MDX; virtual FS for the two cue arms", "stdout captured", "sandboxed output"]}
 ASSUMPTIONS = ["the 2352 encoding pads the last sector's user data; MDX 'eof' = header + data length",
                "purely differential - the raw arm itself is validated by C01/C02"]
-EXPECTED_PROBES = ["akai", "roland", "size_not_multiple_of_2048", "mdf_partial_sector_reads", "audio_cue_is_cdda", "ls_leaf_compared", "trimmed_dump", "partial_raw_sector_at_end"]
+EXPECTED_PROBES = ["akai", "roland", "size_not_multiple_of_2048", "mdf_partial_sector_reads", "audio_cue_is_cdda", "ls_leaf_compared", "trimmed_dump", "partial_raw_sector_at_end", "cue_header_lines", "mixed_mode_cue"]
 SHRINK = {"max_attempts": 60, "max_seconds": 120.0, "simple_values": {"policy": ["contiguous"]}}
 
 
 def gen(rng: random.Random, tier: str, index: int) -> dict:
     sc = _gen(rng)
     sc["raw_tail"] = rng.choice([0, 0, 1, 15, 16, 17, 100, 2351]) if rng.random() < 0.5 else 0
+    style = {}
+    if rng.random() < 0.4:
+        style["header"] = rng.sample(['REM GENRE Sampler', 'REM DATE 1994', 'CATALOG 0000000000000', 'PERFORMER "Roland"', 'TITLE "Sample CD"', '', '   '], rng.randint(1, 3))
+    if rng.random() < 0.35:
+        style["audio_tracks"] = rng.randint(1, 2)
+    sc["cue_style"] = style
     return sc
 
 
@@ -83,22 +89,39 @@ def _paths(sc: dict):
     return out
 
 
-def _run_arm(arm: str, img: bytes, paths, res: RunResult, raw_tail: int = 0):
+def _run_arm(arm: str, img: bytes, paths, res: RunResult, raw_tail: int = 0, cue_style=None):
     """Returns dict(kind, ls{path:(stdout,exc)}, export(stdout, tree digest, exc), simfile)."""
     vfs = None
+    style = cue_style or {}
+
+    def cue(mode: str) -> bytes:
+        # a cue sheet may carry header lines before FILE and audio tracks after its data track (a mixed-mode disc)
+        text = "".join(l + "\n" for l in style.get("header", []))
+        text += K.data_cue("d.bin", mode)
+        for i in range(style.get("audio_tracks", 0)):
+            text += "  TRACK %02d AUDIO\n    INDEX 01 %02d:00:00\n" % (i + 2, 50 + i)
+        return text.encode()
+
     if arm == "raw":
         target = sf = SimFile(img)
+    elif arm == "raw_path":
+        # the command line always hands over a path: the file is first sniffed as a text / cue file
+        vfs = VirtualFS({"/vfs/d.img": img})
+        target, sf = "/vfs/d.img", None
     elif arm == "s2352":
         # a rip may stop in the middle of a raw sector: the incomplete sector carries no usable data
-        target = sf = SimFile(K.to_2352(img) + bytes([0x5A]) * raw_tail)
-        sf.watch = []
+        sfw = SimFile(K.to_2352(img) + bytes([0x5A]) * raw_tail)
+        sfw.watch = []
+        vfs = VirtualFS({"/vfs/d.mdf": sfw})
+        target, sf = "/vfs/d.mdf", None
     elif arm == "mdx":
-        target = sf = SimFile(K.to_mdx(img))
+        vfs = VirtualFS({"/vfs/d.mdx": K.to_mdx(img)})
+        target, sf = "/vfs/d.mdx", None
     elif arm == "cue_raw":
-        vfs = VirtualFS({"/vfs/d.cue": K.data_cue("d.bin", "MODE1/2048").encode(), "/vfs/d.bin": img})
+        vfs = VirtualFS({"/vfs/d.cue": cue("MODE1/2048"), "/vfs/d.bin": img})
         target, sf = "/vfs/d.cue", None
     else:
-        vfs = VirtualFS({"/vfs/d.cue": K.data_cue("d.bin", "MODE1/2352").encode(), "/vfs/d.bin": K.to_2352(img) + bytes([0x5A]) * raw_tail})
+        vfs = VirtualFS({"/vfs/d.cue": cue("MODE1/2352"), "/vfs/d.bin": K.to_2352(img) + bytes([0x5A]) * raw_tail})
         target, sf = "/vfs/d.cue", None
     out = {"ls": {}, "kind": None}
     import contextlib
@@ -119,9 +142,10 @@ def _run_arm(arm: str, img: bytes, paths, res: RunResult, raw_tail: int = 0):
     sfs = [sf] if sf is not None else list(vfs.simfiles.values())
     res.io_events += sum(s.io_events for s in sfs)
     out["events"] = [s.event_digest() for s in sfs]
-    if arm == "s2352" and sf.watch:
-        n = sum(1 for pos, ln in sf.watch if ln and ln < 2048 and (pos % 2352) + ln == 16 + 2048)
-        res.probes["mdf_partial_sector_reads"] += n
+    if arm == "s2352":
+        for sfx in sfs:
+            if sfx.watch:
+                res.probes["mdf_partial_sector_reads"] += sum(1 for pos, ln in sfx.watch if ln and ln < 2048 and (pos % 2352) + ln == 16 + 2048)
     if any(s.writes for s in sfs):
         res.add(PROP, "image_written", "arm %s wrote to the image" % arm)
     return out
@@ -156,9 +180,13 @@ def run(sc: dict) -> RunResult:
         nontrivial = True
     arms = {}
     for arm in sc.get("arms", ARMS):
-        arms[arm] = _run_arm(arm, img, paths, res, raw_tail=sc.get("raw_tail", 0))
+        arms[arm] = _run_arm(arm, img, paths, res, raw_tail=sc.get("raw_tail", 0), cue_style=sc.get("cue_style"))
     if sc.get("raw_tail"):
         res.probes["partial_raw_sector_at_end"] += 1
+    if (sc.get("cue_style") or {}).get("header"):
+        res.probes["cue_header_lines"] += 1
+    if (sc.get("cue_style") or {}).get("audio_tracks"):
+        res.probes["mixed_mode_cue"] += 1
     base = arms.get("raw")
     if base is not None:
         for arm, o in arms.items():
